@@ -289,13 +289,6 @@ def has_of_unsigned_integer(text):
     return False
 
 
-def reversed_range(text):
-    for lo, hi in re.findall(r"\(\s*(?:SIZE\s*\(\s*)?(-?\d+)\s*\.\.\s*(-?\d+)", strip_comments(text)):
-        if int(lo) > int(hi):
-            return True
-    return False
-
-
 def parse_defs(text):
     """[(name, rhs text)] of the type assignments of a single-module text (good enough for the hand-made modules)"""
     body = strip_comments(text)
